@@ -111,12 +111,12 @@ End PSL.
 (* rules/helpers.go:9-46 splitWithEscapeCharacter *)
 Fixpoint split_esc_aux (sep esc : byte) (preserve : bool) (s : bytes) (sb : bytes) (escaped : bool) : list bytes :=
   match s with
-  | [] => if preserve || negb (isnil sb) then [rev sb] else []
+  | [] => if preserve || negb (isnil sb) then [rev' sb] else []
   | c :: s' =>
     if beq c esc then split_esc_aux sep esc preserve s' sb true
     else if beq c sep then
       if escaped then split_esc_aux sep esc preserve s' (c :: sb) false
-      else if preserve || negb (isnil sb) then rev sb :: split_esc_aux sep esc preserve s' [] escaped
+      else if preserve || negb (isnil sb) then rev' sb :: split_esc_aux sep esc preserve s' [] escaped
            else split_esc_aux sep esc preserve s' sb escaped
     else
       if escaped then split_esc_aux sep esc preserve s' (c :: esc :: sb) false
@@ -130,4 +130,4 @@ Definition get_subdomains (hostname : bytes) : list bytes :=
   snd (fold_left (fun (st : bytes * list bytes) (p : bytes) =>
                     let d := if isnil (fst st) then p else p ++ "."%byte :: fst st in
                     (d, snd st ++ [d]))
-                 (rev (split_byte "."%byte hostname)) ([], [])).
+                 (rev' (split_byte "."%byte hostname)) ([], [])).
